@@ -275,3 +275,44 @@ def run_finipaths(prog, ctx=None):
     if n < 10:
         raise Broken("FINIPATHS: only %d members in teardown functions" % n)
     return res
+
+
+def run_notifyguard(prog, ctx=None):
+    """NOTIFYGUARD: the end-of-life call of a handler slot, `S.cmd(S.arg, 0)`, depends on the handler alone: of the members
+    of S only `cmd` is tested by the branch conditions that decide whether the call is made (in the function that makes it).
+    A guard on the context (`S.arg`) or on the id skips the notification for handlers that were registered without a
+    context, or with id 0: they never learn that they were dropped."""
+    res = Result("NOTIFYGUARD")
+    files = set(ctx.get("files", [])) if ctx else None
+    from .rules_path import funcs_of
+    recs = slot_records(prog)
+    SLOT_RECORDS.clear()
+    SLOT_RECORDS.update(recs)
+    for f in funcs_of(prog, files):
+        dom = f.dominators()
+        for b, i, e in f.elements():
+            if e.get("k") != "call" or e.get("callee") is None or len(e.get("args", [])) != 2 or cval(e["args"][1]) != 0:
+                continue
+            ce = strip(e["callee"], all_casts=True)
+            if not _is_cmd_mem(ce):
+                continue
+            base = _base_text(f, ce)
+            bad = None
+            for pb in dom[b.id]:
+                blk = f.blocks[pb]
+                if pb == b.id or not (blk.term and blk.term.get("cond") is not None):
+                    continue
+                # the condition decides whether b is reached: b is reachable from only one of the successors
+                if len(blk.succ) == 2 and all(s is not None for s in blk.succ):
+                    r0 = b.id == blk.succ[0] or b.id in f.reachable_from(blk.succ[0])
+                    r1 = b.id == blk.succ[1] or b.id in f.reachable_from(blk.succ[1])
+                    if r0 and r1:
+                        continue
+                for m in walk(blk.term["cond"]):
+                    if m.get("k") == "mem" and m.get("f") != "cmd" and norm(show(strip(m["b"], all_casts=True), f)) == norm(show(strip(ce["b"], all_casts=True), f)) \
+                            and (m.get("rec") or "").split("::")[-1] in {r.split("::")[-1] for r in recs}:
+                        bad = (m, blk.term["cond"])
+            res.ob("%s:%s" % (f.qn, norm(show(e, f))[:50]), bad is None, f, e.get("l", f.line) or f.line,
+                   "" if bad is None else "the end-of-life call `%s` is made only when `%s` lets it: the test of %s.%s skips the notification of handlers for which that member is zero" % (
+                       norm(show(e, f))[:60], norm(show(bad[1], f))[:60], base, bad[0]["f"]))
+    return res
